@@ -73,7 +73,13 @@ func source(fs []*feat) ingest.FeatureSource {
 }
 
 func buildWorld(s *scene, kind string) (b6.World, error) {
-	fs := featuresFor(s, kind)
+	// overlay: base = points and the large features; overlay = everything else
+	return buildWorldFrom(featuresFor(s, kind), kind, func(f *feat) bool { return f.kind == fPoint || f.global })
+}
+
+// buildWorldFrom builds a world of the kind over the features; inBase selects
+// the features given to the base of the overlay world.
+func buildWorldFrom(fs []*feat, kind string, inBase func(*feat) bool) (b6.World, error) {
 	switch kind {
 	case "basic":
 		return ingest.NewWorldFromSource(source(fs), &ingest.BuildOptions{Cores: 1, FailInvalidFeatures: true})
@@ -88,10 +94,9 @@ func buildWorld(s *scene, kind string) (b6.World, error) {
 		w := compact.NewWorld()
 		return w, w.Merge(data)
 	case "overlay":
-		// base: points and the large features; overlay: everything else
 		var base, over []*feat
 		for _, f := range fs {
-			if f.kind == fPoint || f.global {
+			if inBase(f) {
 				base = append(base, f)
 			} else {
 				over = append(over, f)
@@ -138,21 +143,27 @@ func getWorld(s *scene, kind string) *built {
 	}
 	b := &built{}
 	b.w, b.err = buildWorld(s, kind)
-	if b.err == nil {
-		var mu sync.Mutex
-		b.err = b.w.EachFeature(func(f b6.Feature, _ int) error {
-			mu.Lock()
-			b.ids = append(b.ids, f.FeatureID())
-			mu.Unlock()
-			return nil
-		}, &b6.EachFeatureOptions{Goroutines: 1})
-		sort.Slice(b.ids, func(i, j int) bool { return b.ids[i].Less(b.ids[j]) })
-		for _, id := range b.ids {
-			b.feats = append(b.feats, b.w.FindFeatureByID(id))
-		}
-	}
+	b.scan()
 	cache[key] = b
 	return b
+}
+
+// scan fills the brute-force view (every feature EachFeature reports, in ID order).
+func (b *built) scan() {
+	if b.err != nil {
+		return
+	}
+	var mu sync.Mutex
+	b.err = b.w.EachFeature(func(f b6.Feature, _ int) error {
+		mu.Lock()
+		b.ids = append(b.ids, f.FeatureID())
+		mu.Unlock()
+		return nil
+	}, &b6.EachFeatureOptions{Goroutines: 1})
+	sort.Slice(b.ids, func(i, j int) bool { return b.ids[i].Less(b.ids[j]) })
+	for _, id := range b.ids {
+		b.feats = append(b.feats, b.w.FindFeatureByID(id))
+	}
 }
 
 // coveringHasLevel0 is a classifier for counterexamples only: does the
@@ -273,6 +284,14 @@ func main() {
 		Build: func(tier string) (kit.Space, string) {
 			as := anchors(tier)
 			kinds := worldKinds
+			// filter worlds first (tiny worlds; simplest-first by pattern length)
+			fwAnchors := []anchor{as[0]}
+			geos := make([]*fwGeo, len(fwAnchors))
+			for i, a := range fwAnchors {
+				geos[i] = newFwGeo(a)
+			}
+			fws := fwCases(tier)
+			nfw := int64(len(fws)) * int64(len(geos))
 			scenes := make([]*scene, len(as))
 			qs := make([][]qspec, len(as))
 			var cases []caseRef
@@ -287,10 +306,20 @@ func main() {
 					}
 				}
 			}
-			bound := fmt.Sprintf("%d anchor cells (level 16; thorough also levels 8, 12, 20, 24) x %d world kinds %v x ~%d queries per scene; ~%d features per scene; cap radii %v m; cell levels 0,1,5,16,30 (+2,10,15,17,24 thorough)",
-				len(as), len(kinds), kinds, len(qs[0]), nf/len(as), capRadiiM)
-			return kit.FuncSpace{N: int64(len(cases)), F: func(i int64) kit.Result {
-				c := cases[i]
+			nq := 0
+			for _, fq := range geos[0].queries(geos[0].scene([]int{0}, fPoint, true), fPoint) {
+				if fq.build != nil {
+					nq++
+				}
+			}
+			bound := fmt.Sprintf("(A) filter worlds: every sequence of 1..%d slots over {M-,Ma,R-,Ra,Fa} (M = true match at the hot spot, R = in the level-16 covering cell of every query but 30-80 m outside every exact shape, F = 1 km away; a = tagged #t=a) = %d sequences x slot type {point,path,area} x {no sentinels, one sentinel match of every feature type + relation + collection in a later namespace} x %d world kinds %v at anchor %s = %d worlds; per world %d spatial queries (cap 20 m, level-20 cell, point, polyline, multipolygon of 1 and 2 polygons, intersects-feature point/path/area sentinel) x %d forms: bare, Typed x {point,path,area,relation,collection}, Intersection/Union with #t=a and with #e=y (all features) in both operand orders, Typed x {point,path,area} over those, Intersection/Union of Typed with #t=a in both orders, Intersection (both orders) and Union with a second cap holding R slots 0..2. (B) %d anchor cells (level 16; thorough also levels 8, 12, 20, 24) x %d world kinds x ~%d queries per scene; ~%d features per scene; cap radii %v m; cell levels 0,1,5,16,30 (+2,10,15,17,24 thorough); every exact query also as Typed x {point,path,area,relation} and as Intersection/Union with the tag query #menu=path in both operand orders",
+				fwMaxLen(tier), len(fws)/(len(fwSlotTypes)*2*len(kinds)), len(kinds), kinds, fwAnchors[0].name, nfw, nq, len(fwWrapperList),
+				len(as), len(kinds), len(qs[0]), nf/len(as), capRadiiM)
+			return kit.FuncSpace{N: nfw + int64(len(cases)), F: func(i int64) kit.Result {
+				if i < nfw {
+					return runFilterCase(geos[i%int64(len(geos))], &fws[i/int64(len(geos))], i)
+				}
+				c := cases[i-nfw]
 				return runCase(scenes[c.scene], c.kind, &qs[c.scene][c.q], i)
 			}}, bound
 		},
